@@ -38,6 +38,7 @@ template <size_t P> struct desc_lay<Kokkos::Experimental::layout_right_padded<P>
 template <class A> struct desc_acc { static void put(std::vector<i128> &o) { o.push_back(-9); } };
 template <class T> struct desc_acc<Kokkos::default_accessor<T>> { static void put(std::vector<i128> &o) { o.push_back(0); put_elt<T>(o); o.push_back(0); } };
 template <class T> struct desc_acc<throw_acc<T>> { static void put(std::vector<i128> &o) { o.push_back(1); put_elt<T>(o); o.push_back(2); } };
+template <class T> struct desc_acc<value_acc<T>> { static void put(std::vector<i128> &o) { o.push_back(1); put_elt<T>(o); o.push_back(3); } };
 template <class T, int Id> struct desc_acc<user_acc<T, Id>> { static void put(std::vector<i128> &o) { o.push_back(1); put_elt<T>(o); o.push_back(Id); } };
 
 template <class T> struct describe { static void put(std::vector<i128> &o) { o.push_back(-9); } };
